@@ -689,6 +689,19 @@ func (e *exh) eval(v ssa.Value, ctx *Ctx, at *ssa.BasicBlock, depth int) *AV {
 				in := e.refineAt(e.eval(t.X, ctx, at, depth+1), t.X, t.Block(), ctx)
 				return e.filterAssert(in, t.AssertedType, true, kind)
 			}
+			// the ok result: true iff some possible value passes the assertion,
+			// false iff some possible value fails it
+			in := e.refineAt(e.eval(t.X, ctx, at, depth+1), t.X, t.Block(), ctx)
+			if in != nil && !in.Top && (in.kind == "types" || in.kind == "shapes") {
+				pass := e.filterAssert(in.clone(), t.AssertedType, true, in.kind)
+				fail := e.filterAssert(in.clone(), t.AssertedType, false, in.kind)
+				ob := &AV{kind: "bool"}
+				ob.BoolT = !pass.empty()
+				ob.BoolF = !fail.empty()
+				if ob.BoolT || ob.BoolF {
+					return ob
+				}
+			}
 			return e.top(v.Type())
 		case *ssa.Call:
 			return e.callResult(t, x.Index, ctx, at, depth, v.Type())
@@ -872,12 +885,19 @@ func (e *exh) callResult1(c *ssa.Call, idx int, ctx *Ctx, at *ssa.BasicBlock, de
 	kind := e.kindOf(rt)
 	callee := c.Call.StaticCallee()
 	// ast getters and friends
+	// A getter's receiver is an immutable node: what is known about it where
+	// the result is used (a later switch on the operator, say) applies to the
+	// call as well, so a getter hoisted into a local loses nothing.
+	rb := c.Block()
+	if at != nil && at.Parent() == c.Parent() && (at == rb || rb.Dominates(at)) {
+		rb = at
+	}
 	if c.Call.IsInvoke() && c.Call.Method.Name() == "Next" && types.Identical(c.Call.Value.Type(), e.p.A.Node) {
-		recv := e.evalAt(c.Call.Value, ctx, c.Block())
+		recv := e.evalAt(c.Call.Value, ctx, rb)
 		return e.nextOf(recv)
 	}
 	if callee != nil && fnPkgPath(callee) == pkgAST && callee.Signature.Recv() != nil && len(c.Call.Args) >= 1 {
-		recv := e.evalAt(c.Call.Args[0], ctx, c.Block())
+		recv := e.evalAt(c.Call.Args[0], ctx, rb)
 		if callee.Name() == "Next" {
 			return e.nextOf(recv)
 		}
